@@ -4,6 +4,7 @@ from core import Case, canon, hx
 
 PROP = "C01"
 LEAN_MODULES = ["DrxProps.C01"]
+FAMILIES = ["riff"]
 RULE = ("spec movies (order, prefix with planted decoys, chunk list with arbitrary FourCC bytes and payload lengths incl. 0/odd, "
         "imap first, mmap anywhere, free/junk and size<=0 map entries) are encoded by the harness, decoded by the real "
         "parse_riff/get_by_offset/parse_imap/parse_mmap/find_riff_in_exe and by the Lean model; expected values come from the spec "
